@@ -190,10 +190,15 @@ def emit_lean(data):
     L.append("    docMin := %d, docMax := %d }" % (doc_min, doc_max))
     for name, stmt, _ in OBLIGATIONS:
         L.append("theorem %s : %s := by decide +kernel" % (name, stmt))
-    # the property theorems instantiated at the translated tables (their hypotheses are the obligations above)
-    L.append("theorem atomic_actual := Nx.C18.set_version_atomic_of_coded coded same_key_sets")
-    L.append("theorem shape_actual := Nx.C18.shape_changes_only_at_boundaries_of_coded coded same_key_sets api_era_constant")
-    L.append("theorem validation_actual := Nx.C18.send_invitation_accepts_documented_of_coded coded languages_documented")
+    # the obligations transferred to the decoded tables, and the property theorems instantiated there
+    L.append("theorem hyp_keys : coded.decode.keys.sameSets = true := by rw [Coded.decode_keys]; exact same_key_sets")
+    L.append("theorem hyp_dauth_api : eraConstant coded.decode.dauthApi = true := (apiEra_of_coded coded api_era_constant).1")
+    L.append("theorem hyp_aauth_api : eraConstant coded.decode.aauthApi = true := (apiEra_of_coded coded api_era_constant).2")
+    L.append("theorem hyp_templates : TemplatesOk coded.decode := templatesOk_of_coded coded baas_templates")
+    L.append("theorem hyp_languages : coded.decode.languages = documentedLanguages := languages_of_coded coded languages_documented")
+    L.append("theorem atomic_actual : True := by have := Nx.C18.set_version_atomic coded.decode hyp_keys; trivial")
+    L.append("theorem shape_actual : True := by have := Nx.C18.shape_changes_only_at_boundaries coded.decode hyp_keys hyp_dauth_api hyp_aauth_api hyp_templates; trivial")
+    L.append("theorem validation_actual : True := by have := Nx.C18.send_invitation_accepts_documented coded.decode hyp_languages; trivial")
     L.append("end Nx.C18.Gen")
     return "\n".join(L) + "\n"
 
